@@ -3,6 +3,8 @@ package main
 import (
 	"bytes"
 	"fmt"
+	"reflect"
+	"sort"
 
 	"github.com/go-i2p/common/certificate"
 	"github.com/go-i2p/common/data"
@@ -316,5 +318,124 @@ func runC19(c *Ctx) {
 		i2, ie2 := data.EncodeIntN(v, sz)
 		okk := (ie1 == nil) == (ie2 == nil) && (ie1 != nil || bytes.Equal(i1.Bytes(), i2))
 		c.Check("entry_points_agree", okk, "NewIntegerFromInt vs EncodeIntN", [][]byte{i64(int64(v)), i64(int64(sz))}, "", "differ")
+	}
+	c19SignatureTwins(c)
+}
+
+// c19SignatureTwins: alternative entry points found by signature rather than by name. The list of
+// exported functions taking a byte slice (and integers) is regenerated from the source by the
+// translator, with their shapes; every two functions of one package that take the same arguments
+// and return the same type (by value or by pointer), the same optional remainder and an error are
+// run on the same inputs: when both accept they must yield the same serialisation and remainder,
+// and they must accept the same inputs — except where one is a restricted reader by design.
+func c19SignatureTwins(c *Ctx) {
+	r := c.R
+	subsetByDesign := map[string]bool{ // accept only inputs declaring their fixed key layout
+		"keys_and_cert.ReadKeysAndCertElgAndEd25519":    true,
+		"keys_and_cert.ReadKeysAndCertX25519AndEd25519": true,
+	}
+	groups := map[string][]string{}
+	for name, shape := range apiByteFuncShape {
+		groups[shape] = append(groups[shape], name)
+	}
+	var shapes []string
+	for sh, g := range groups {
+		if len(g) >= 2 {
+			sort.Strings(g)
+			shapes = append(shapes, sh)
+		}
+	}
+	sort.Strings(shapes)
+	project := func(res []interface{}) alt {
+		if len(res) < 2 {
+			return alt{}
+		}
+		switch e := res[len(res)-1].(type) {
+		case nil:
+		case error:
+			if e != nil {
+				return alt{}
+			}
+		case []error:
+			if mappingFatal(e) {
+				return alt{}
+			}
+		default:
+			return alt{}
+		}
+		v := reflect.ValueOf(res[0])
+		if !v.IsValid() || (v.Kind() == reflect.Ptr && v.IsNil()) {
+			return alt{}
+		}
+		if v.Kind() != reflect.Ptr {
+			pv := reflect.New(v.Type())
+			pv.Elem().Set(v)
+			v = pv
+		}
+		a := alt{ok: true}
+		a.bytes = reserialise(v.Interface())
+		if a.bytes == nil {
+			e := v.Elem()
+			switch e.Kind() {
+			case reflect.Slice:
+				if e.Type().Elem().Kind() == reflect.Uint8 {
+					a.bytes = cp(e.Bytes())
+				}
+			case reflect.Array:
+				if e.Type().Elem().Kind() == reflect.Uint8 {
+					for i := 0; i < e.Len(); i++ {
+						a.bytes = append(a.bytes, byte(e.Index(i).Uint()))
+					}
+				}
+			}
+		}
+		if len(res) == 3 {
+			if rem, ok := res[1].([]byte); ok {
+				a.rem = rem
+			}
+		}
+		return a
+	}
+	var pool [][]byte
+	for i := range parsers {
+		if parsers[i].Gen == nil {
+			continue
+		}
+		for k := 0; k < c.N(6, 60); k++ {
+			w := parsers[i].Gen(r)
+			pool = append(pool, w, cat(w, r.Bytes(1+r.Intn(40))))
+			if len(w) > 0 {
+				pool = append(pool, w[:r.Intn(len(w))])
+			}
+		}
+	}
+	for n := 0; n <= 70; n++ {
+		pool = append(pool, r.Bytes(n))
+	}
+	for _, sh := range shapes {
+		g := groups[sh]
+		for _, in := range pool {
+			n := r.Intn(13)
+			outs := make([]alt, len(g))
+			for i, name := range g {
+				func() {
+					defer func() { _ = recover() }() // panics are C04's concern
+					outs[i] = project(apiByteFuncResults[name](cp(in), n))
+				}()
+			}
+			for i := 0; i < len(g); i++ {
+				for j := i + 1; j < len(g); j++ {
+					a, b := outs[i], outs[j]
+					ok := true
+					if a.ok && b.ok {
+						ok = bytes.Equal(a.bytes, b.bytes) && bytes.Equal(a.rem, b.rem)
+					} else if a.ok != b.ok && !subsetByDesign[g[i]] && !subsetByDesign[g[j]] {
+						ok = false
+					}
+					c.Check("entry_points_agree", ok, g[i]+" vs "+g[j]+" (same signature)", [][]byte{in, i64(int64(n))}, "",
+						fmt.Sprintf("A: ok=%v bytes=%d rem=%d; B: ok=%v bytes=%d rem=%d", a.ok, len(a.bytes), len(a.rem), b.ok, len(b.bytes), len(b.rem)))
+				}
+			}
+		}
 	}
 }
